@@ -318,6 +318,10 @@ impl Task {
         let ctx = self.create_context();
         let value = utils::fill_params(&self.node.content.params(), &ctx);
         self.set_data_with(|data| data.set(consts::ACT_PARAMS_CACHE, value.clone()));
+        // the evaluated params are part of the task (they are not evaluated again), save them
+        if !self.state().is_none() {
+            let _ = self.runtime.cache().upsert(self);
+        }
 
         value
     }
